@@ -5,7 +5,8 @@ ID = 'C01'
 RULE = ('random state trees (shapes rand/chain/bushy/two/comb/flat, up to 40 states, depth up to ~35) with random '
         'initial transitions to any strict descendant, random reactions (handle / transition to any state / guard) '
         'and random event scripts on the plain HsmEventProcessor; every dispatch is compared with an independent '
-        'reference model (exact exit*/entry*/init list and rest state). distinct_nontrivial = distinct '
+        'reference model (exact exit*/entry*/init list and rest state); in every second case client code calls is_in / '
+        'child_state on random states between two events. distinct_nontrivial = distinct '
         '(topology class a-h, depth of S, depth of T, depth of current state, init-chain length) tuples among '
         'steps that were transitions')
 CASES = {'quick': 30000, 'thorough': 600000}
@@ -22,7 +23,7 @@ def run_case(ctx, n):
   spec = cg.gen_spec(rng, **seqrun.pick_params(rng, ctx.tier))
   start = rng.randrange(spec['n'])
   script = cg.gen_script(rng, spec, rng.randint(10, 60))
-  for prop, key, what, wit in seqrun.run_plain(ctx, rng, spec, start, script):
+  for prop, key, what, wit in seqrun.run_plain(ctx, rng, spec, start, script, query_rng=ctx.rng('queries', n) if n % 2 else None):
     if prop in PROPS or key.startswith('C0x') and 'C01' in PROPS:
       ctx.violation(key, what, wit)
     else:
